@@ -277,7 +277,8 @@ fn run_tinylfu_inner(c: &TCase, prop: E7Prop, rep: &mut CaseReport) -> Result<()
                     let tw = if i % 2 == 0 {
                         t.clone()
                     } else {
-                        let other = TCase { size: c.size % 7 + 1, samples: c.samples % 5 + 1, fp: 0.3, kh: c.kh, sketch_seed: Some(99), single: None, ops: vec![] };
+                        // another sketch size, and a doorkeeper of another size (few vs many samples, other ratio)
+                        let other = TCase { size: c.size % 7 + 1, samples: if i % 4 == 1 { c.samples % 5 + 1 } else { 900 + c.samples * 7 }, fp: if i % 4 == 1 { 0.3 } else { 0.001 }, kh: c.kh, sketch_seed: Some(99), single: None, ops: vec![] };
                         match build_tinylfu(&other) {
                             Ok(mut o) => {
                                 o.increment_hashed_key(3);
